@@ -27,6 +27,7 @@ RULE = ('covered types: Transaction, TransactionDescr (all kinds), the five phas
         'object with the schema value (names as in block.tlb modulo a documented rename table; values exact, unsigned stay unsigned) and 0 bits / 0 refs left in the '
         'slice. The bundled main-net block is decoded by both sides and compared the same way. non-trivial = value with at least one deviation; states = distinct '
         '(type, root constructor, polarity, plan); transitions = deserialize calls; traces = field comparisons against the schema value')
+RULE += " Fifth session: failure histories per type (base value of every root constructor in both polarities; every single-cell damage of each - cut to 0 bits / half / minus one bit, last reference dropped - fed to the parser; base values again: verdicts unchanged); constructors of one type are told apart by the parsed object's (class, type_) marker."
 LEVEL_TEXT = ('Bounded-exhaustive in the deviation metric: every constructor tag, every optional field and every field width of the covered types is exercised alone '
               '(and pairwise in the thorough tier) on cells written by an independent interpreter of the schema text, and every parsed field is compared.')
 LEVEL_NOTE = ('trusted: mc/ref/tlb.py + tlbgen.py (interpret the bundled block.tlb; the decoder consumes the complete main-net block; generator output is re-decoded on every case), '
